@@ -189,7 +189,7 @@ class EBB3:
         if self.port is not None:
             try:
                 self.port.close()
-            except (serial.SerialException, serial.serialutil.PortNotOpenError):
+            except (serial.SerialException, serial.serialutil.PortNotOpenError, OSError):
                 pass # We try to err on the side of trying to close the port.
         self.port = None
 
